@@ -25,7 +25,7 @@ def has_dep(deps, name):
 
 
 class AV:
-    __slots__ = ("deg", "aff", "deps", "shape", "items", "verts", "missing", "unit", "sym", "val", "_empty")
+    __slots__ = ("deg", "aff", "deps", "shape", "items", "verts", "missing", "unit", "sym", "val", "_empty", "ref", "rec", "fn", "seq")
 
     def __init__(self, deg=None, aff=None, deps=frozenset(), shape=None, items=None, verts=None, missing=None, unit=False):
         self.deg, self.aff, self.deps, self.shape = deg, aff, deps, shape
@@ -34,6 +34,10 @@ class AV:
         self.sym = None    # SV: symbolic scalar / unit-vector facts (only filled when Config.unit is on)
         self.val = None    # Poly: symbolic value of an integer scalar (sizes are named in the caller's parameters)
         self._empty = False
+        self.seq = None    # "list" for a python list / tuple (its `+` concatenates, its `*` repeats); None for arrays and unknown values
+        self.fn = None     # (Lambda | FunctionDef, environment it closes over, Interp that owns it) for a callable value
+        self.rec = None    # (ClassDef, {field: AV}) for an instance of a NamedTuple / dataclass of the package
+        self.ref = None    # name of the parameter of the analysed function this value *is* (an object whose attributes are geometric inputs)
 
     @property
     def empty(self):
@@ -47,6 +51,10 @@ class AV:
         o = AV(self.deg, self.aff, self.deps, self.shape, self.items, self.verts, self.missing, self.unit)
         o.sym = self.sym
         o.val = self.val
+        o.ref = self.ref
+        o.rec = self.rec
+        o.fn = self.fn
+        o.seq = self.seq
         for k, v in kw.items():
             setattr(o, k, v)
         return o
@@ -126,8 +134,10 @@ def join_sv(a, b):
     if a.comps is not None and b.comps is not None and len(a.comps) == len(b.comps) \
             and all(x is not None and y is not None and x.same(y) for x, y in zip(a.comps, b.comps)):
         comps = a.comps
-    return SV(sx, comps, a.isvec and b.isvec, a.unorm and b.unorm, a.israd and b.israd, a.vid if a.vid == b.vid else None, None,
-              a.refuted or b.refuted)
+    out = SV(sx, comps, a.isvec and b.isvec, a.unorm and b.unorm, a.israd and b.israd, a.vid if a.vid == b.vid else None, None,
+             a.refuted or b.refuted)
+    out.arr = bool(a.arr and b.arr)
+    return out
 
 
 def subst_square(P, a, Q):
@@ -191,6 +201,8 @@ def mul_deg(a, b, sign=1):
 
 
 def join_deg(a, b):
+    if isinstance(a, AffMix) or isinstance(b, AffMix):
+        return a if a == b else None
     if a == ANY:
         return b
     if b == ANY:
@@ -200,8 +212,16 @@ def join_deg(a, b):
     return a if a == b else None
 
 
+class AffMix(frozenset):
+    """rows of one array with different known affine weights (a store through a proper part of the rows changed the weight of
+    that part only): never equal to a number, unknown in arithmetic"""
+
+    def __repr__(self):
+        return "mixed{" + ", ".join(str(x) for x in sorted(self)) + "}"
+
+
 def add_aff(a, b, sign=1):
-    if a is None or b is None:
+    if a is None or b is None or isinstance(a, AffMix) or isinstance(b, AffMix):
         return None
     if a == ANY and b == ANY:
         return ANY
@@ -211,6 +231,8 @@ def add_aff(a, b, sign=1):
 
 
 def mul_aff(a, b):
+    if isinstance(a, AffMix) or isinstance(b, AffMix):
+        return None
     if a == ANY and b == ANY:
         return ANY
     if a in (F0, ANY) and b in (F0, ANY):
@@ -265,6 +287,11 @@ def same_dim(a, b):
     return isinstance(a, Poly) and isinstance(b, Poly) and a == b
 
 
+def same_shape(a, b):
+    """two shapes whose every dimension is known and equal"""
+    return a is not None and b is not None and len(a) == len(b) and all(same_dim(x, y) for x, y in zip(a, b))
+
+
 def _jdim(x, y):
     if x is None or y is None:
         return None
@@ -316,10 +343,14 @@ def join_av(a, b, label_a="", label_b=""):
         keep = b if a.empty else a
         out = keep.copy()
         return out
-    out = AV(join_deg(a.deg, b.deg), join_deg(a.aff, b.aff), deps, join_shape(a.shape, b.shape), items, verts, missing,
+    shape = join_shape(a.shape, b.shape)
+    if (a.items is None) != (b.items is None) and a.shape and b.shape and len(a.shape) != len(b.shape) and not same_dim(a.shape[0], b.shape[0]):
+        shape = None        # a tuple of results on one side, a single result on the other: not one array with alternative row counts
+    out = AV(join_deg(a.deg, b.deg), join_deg(a.aff, b.aff), deps, shape, items, verts, missing,
              a.unit and b.unit)
     out.sym = join_sv(a.sym, b.sym)
     out._empty = a.empty and b.empty
+    out.seq = a.seq if a.seq == b.seq else None
     return out
 
 
@@ -378,7 +409,62 @@ class Interp:
         self.events = []      # (node, kind, detail)
         self.returns = []     # (node, AV)
         self.fills = []       # (node, rows of the array, trip count of the loop whose index addresses the row)
+        self.fn_imports = {}     # name bound by an import statement inside the function -> (module, original name)
+        if isinstance(fn, (ast.FunctionDef, ast.AsyncFunctionDef)) and cfg.modname:
+            full_ = cfg.modname if cfg.modname.startswith("mouette") else "mouette." + cfg.modname
+            is_pkg_ = False
+            try:
+                is_pkg_ = bool(cfg.repo.module(full_).is_pkg) if cfg.repo is not None else False
+            except Exception:
+                pass
+            for n_ in au.walk(fn):
+                if isinstance(n_, ast.ImportFrom):
+                    parts_ = full_.split(".")
+                    base_ = parts_ if is_pkg_ else parts_[:-1]
+                    if n_.level:
+                        base_ = base_[:len(base_) - (n_.level - 1)] if n_.level > 1 else base_
+                        src_ = ".".join(base_ + ([n_.module] if n_.module else []))
+                    else:
+                        src_ = n_.module or ""
+                    for a_ in n_.names:
+                        self.fn_imports[a_.asname or a_.name] = (src_, a_.name)
+        self.partial_stores = {}   # array name -> store through a proper part of its rows that changed the affine weight of that part
+        self.yields = []         # (node, AV) values produced by a generator function
         self.appended = {}       # id(call) -> shape of the value appended by that call
+        self.func_alias = {}     # local name -> the function / bound method it is an alias of (`rotate = rotate_around_axis`)
+        if isinstance(fn, (ast.FunctionDef, ast.AsyncFunctionDef)):
+            counts = {}
+            for n_ in au.walk(fn):
+                if isinstance(n_, ast.Name) and isinstance(n_.ctx, ast.Store):
+                    counts[n_.id] = counts.get(n_.id, 0) + 1
+            for st_ in au.stmts(fn.body):
+                if isinstance(st_, ast.Assign) and len(st_.targets) == 1 and isinstance(st_.targets[0], ast.Name) and counts.get(st_.targets[0].id) == 1 \
+                        and isinstance(st_.value, ast.IfExp) and all(isinstance(x_, (ast.Name, ast.Attribute)) and au.chain(x_) for x_ in (st_.value.body, st_.value.orelse)):
+                    uses_ = [n_ for n_ in au.walk(fn) if isinstance(n_, ast.Name) and n_.id == st_.targets[0].id and isinstance(n_.ctx, ast.Load)]
+                    if uses_ and all(isinstance(au.parent(u_), ast.Call) and au.parent(u_).func is u_ for u_ in uses_):
+                        self.func_alias[st_.targets[0].id] = st_.value      # draw = random if rng is None else rng.random_sample
+                elif isinstance(st_, ast.Assign) and len(st_.targets) == 1 and isinstance(st_.targets[0], ast.Name) and counts.get(st_.targets[0].id) == 1 \
+                        and isinstance(st_.value, (ast.Name, ast.Attribute)) and au.chain(st_.value):
+                    ch_ = au.chain(st_.value)
+                    root_ = ch_[0]
+                    # an alias of a callable: a module function / numpy function (root is not a local), or a bound method used only in calls
+                    uses_ = [n_ for n_ in au.walk(fn) if isinstance(n_, ast.Name) and n_.id == st_.targets[0].id and isinstance(n_.ctx, ast.Load)]
+                    only_called = uses_ and all(isinstance(au.parent(u_), ast.Call) and au.parent(u_).func is u_ for u_ in uses_)
+                    if only_called and counts.get(root_, 0) <= 1:
+                        self.func_alias[st_.targets[0].id] = st_.value
+                elif isinstance(st_, ast.Assign) and len(st_.targets) == 1 and isinstance(st_.targets[0], ast.Name) and counts.get(st_.targets[0].id) == 1 \
+                        and isinstance(st_.value, ast.Call) and au.call_tail(st_.value) == "partial" and st_.value.args:
+                    self.func_alias[st_.targets[0].id] = st_.value
+                elif isinstance(st_, ast.Assign) and len(st_.targets) == 1 and isinstance(st_.targets[0], ast.Name) and counts.get(st_.targets[0].id) == 1 \
+                        and isinstance(st_.value, ast.Subscript) and isinstance(self._table_node(st_.value.value, counts), ast.Dict):
+                    # a dispatch table indexed by a specialised parameter: `{"uniform": f, "grid": g}[mode]`
+                    key_ = st_.value.slice
+                    kv_ = cfg.consts.get(key_.id, KeyError) if isinstance(key_, ast.Name) else (key_.value if isinstance(key_, ast.Constant) else KeyError)
+                    if kv_ is not KeyError:
+                        tbl_ = self._table_node(st_.value.value, counts)
+                        for k_, v_ in zip(tbl_.keys, tbl_.values):
+                            if isinstance(k_, ast.Constant) and k_.value == kv_ and isinstance(v_, (ast.Name, ast.Attribute, ast.Lambda)):
+                                self.func_alias[st_.targets[0].id] = v_
         self.vertex_stores = []  # (node, AV) coordinates written into a vertex container
         self.loop_len = {}
         self.unit_obl = {}     # id(node) -> [node, proved on every pass, kind, detail]
@@ -424,6 +510,8 @@ class Interp:
                 else:
                     # neither declared geometric nor visibly a count / switch: nothing is assumed about its dimension
                     env[p] = AV(None, None, frozenset([p]), None)
+                    if args is None and any(k_.startswith(p + ".") for k_ in self.cfg.geo):
+                        env[p].ref = p      # an object (box ...) whose attributes are the geometric inputs: followed into helpers
         if self.cfg.unit:
             for p in self.params:
                 if env[p].sym is not None:
@@ -541,6 +629,17 @@ class Interp:
                 cur[3] = detail
                 cur[4] = cur[4] or refuted
 
+    def merge_obligation(self, key, o):
+        """an obligation recorded by the interpretation of a helper: every instance (call) must hold"""
+        cur = self.unit_obl.get(key)
+        if cur is None:
+            self.unit_obl[key] = list(o)
+        else:
+            cur[1] = cur[1] and o[1]
+            if not o[1]:
+                cur[3] = o[3]
+                cur[4] = cur[4] or o[4]
+
     def coeff_obligations(self, node, comps):
         """explicit coordinates that are linear in a radius: the coefficient vector of the radius must be a unit vector"""
         for r in sorted(self.radius_atoms()):
@@ -582,12 +681,19 @@ class Interp:
             return env[e.id].sym
         if e.id == "pi":
             return SV(sx=Rat(Poly.atom("pi")))
+        if e.id == "tau" and e.id not in self.assigned:
+            return SV(sx=Rat(Poly.atom("pi").scale(2)))
         return None
 
     def sv_Attribute(self, e, env):
         c = au.chain(e)
         if c and c[-1] == "pi" and c[0] in ("np", "numpy", "math"):
             return SV(sx=Rat(Poly.atom("pi")))
+        if c and c[-1] == "tau" and c[0] in ("np", "numpy", "math"):
+            return SV(sx=Rat(Poly.atom("pi").scale(2)))
+        if isinstance(e.value, ast.Name) and e.value.id in env and env[e.value.id].rec is not None and env[e.value.id].rec[0] != "elements" \
+                and e.attr in env[e.value.id].rec[1]:
+            return env[e.value.id].rec[1][e.attr].sym        # field of a record
         base = self.sv(e.value, env)
         if e.attr == "vertices":
             return None
@@ -696,6 +802,11 @@ class Interp:
 
     def sv_Tuple(self, e, env):
         vals = [self.sv(x.value if isinstance(x, ast.Starred) else x, env) for x in e.elts]
+        if vals and isinstance(e, ast.List) and all(v is not None and v.isvec and v.unorm and not v.arr for v in vals) \
+                and not any(isinstance(x, ast.Starred) for x in e.elts):
+            out = SV(isvec=True, unorm=True, vid=self.new_vid())       # a list of unit vectors
+            out.arr = True
+            return out
         if vals and all(v is not None and v.sx is not None and not v.isvec for v in vals):
             out = SV(comps=[v.sx for v in vals], isvec=False)      # a tuple of scalars (not a vector): unpacked by `assign`
             out.arr = any(v.arr for v in vals)
@@ -731,6 +842,16 @@ class Interp:
         return out
 
     def _sv_Call(self, c, env):
+        d_ = self.desugar_call(c)
+        if d_ is not None:
+            return self.sv(d_, env)
+        if isinstance(c.func, ast.Lambda) and not any(isinstance(a, ast.Starred) for a in c.args) and not c.func.args.vararg and not c.func.args.kwarg \
+                and not c.keywords and len(c.args) == len(c.func.args.args) and self.cur_env is not None:
+            env2 = dict(env)
+            for p_, a_ in zip(c.func.args.args, c.args):
+                self.sv(a_, env)
+                env2[p_.arg] = self.ev(a_, env)
+            return self.sv(c.func.body, env2)
         tail = au.call_tail(c)
         args = [self.sv(a.value if isinstance(a, ast.Starred) else a, env) for a in c.args]
         for k in c.keywords:
@@ -828,11 +949,43 @@ class Interp:
             return args[0]
         if tail in ("cross",):
             return SV(isvec=True)
+        # a helper interpreted by `ev` (nested function, method of a record / small object, private function of the package):
+        # the symbolic facts of the value it returns
+        helper = (isinstance(c.func, ast.Name) and (c.func.id in self.local_funcs or (c.func.id in env and env[c.func.id].fn is not None)
+                                                    or (c.func.id.startswith("_") and c.func.id not in env))) \
+            or (isinstance(c.func, ast.Attribute) and isinstance(c.func.value, ast.Name) and c.func.value.id in env
+                and env[c.func.value.id].rec is not None)
+        if helper and not self.__dict__.get("_sv_reentry", False) and self.depth < 3:
+            self._sv_reentry = True
+            try:
+                av = self.ev(c, env)
+            except Exception:
+                av = None
+            finally:
+                self._sv_reentry = False
+                self.cur_env = env
+            return av.sym if av is not None else None
         return None
 
     # ------------------------------------------------------------------ driver
     def run(self):
         env = self.block(self.fn.body, dict(self.env0))
+        if self.yields and not self.returns:
+            # a generator function: the caller iterates over the values it yields
+            out = None
+            for _, v in self.yields:
+                out = v.copy(items=None) if out is None else elem_join(out, v)[0]
+            seq = AV(out.deg, out.aff, out.deps, (None,) + tuple(out.shape or ()) if out.shape is not None else (None,), None, None, out.missing, out.unit)
+            vs_ = [v.verts for _, v in self.yields if v.verts is not None]
+            if vs_:         # a generator of meshes: the coordinates of its elements
+                acc_ = vs_[0]
+                for x_ in vs_[1:]:
+                    acc_ = elem_join(acc_, x_)[0]
+                seq.verts = acc_
+            last = self.yields[-1][1]
+            if last.rec is not None and len({id(n_) for n_, _ in self.yields}) == 1:
+                seq.rec = ("elements", last)        # every element is this record
+            self.returns.append((self.yields[0][0], seq))
         return self
 
     def topoly(self, e):
@@ -849,6 +1002,17 @@ class Interp:
                     return v.val
                 if n.id not in self.env0:
                     return "⟨" + n.id + "@" + self.fn.name + "⟩"    # a local of unknown value: never equal to a parameter of that name
+            if isinstance(n, ast.Call) and au.call_tail(n) == "len" and len(n.args) == 1 and not n.keywords:
+                # the length of a sequence whose number of entries the shape domain follows; otherwise a size local to this function
+                try:
+                    v = self.ev(n.args[0], env)
+                    self.cur_env = env
+                except Exception:
+                    v = None
+                if v is not None and v.shape and isinstance(v.shape[0], Poly):
+                    return v.shape[0]
+                if not (au.names(n.args[0]) <= set(self.env0) and self.depth == 0):
+                    return "⟨" + au.src(n) + "@" + self.fn.name + "⟩"
             return None
         try:
             return sym.to_poly(e, atom_of)
@@ -869,7 +1033,24 @@ class Interp:
         return env
 
     def stmt(self, st, env):
+        if isinstance(st, (ast.If, ast.For, ast.AsyncFor, ast.While, ast.Try)):
+            self.cond_depth = self.__dict__.get("cond_depth", 0) + 1
+            try:
+                return self._stmt(st, env)
+            finally:
+                self.cond_depth -= 1
+        return self._stmt(st, env)
+
+    def _stmt(self, st, env):
         self.cur_env = env
+        if isinstance(st, ast.Return) and isinstance(st.value, ast.IfExp) and _none_test(st.value.test) is None \
+                and any(isinstance(x, ast.Tuple) for x in (st.value.body, st.value.orelse)):
+            # `return (pts, normals) if flag else pts`: two returns
+            for alt in (st.value.body, st.value.orelse):
+                r_ = ast.copy_location(ast.Return(value=alt), st)
+                r_.end_lineno, r_.end_col_offset = getattr(st, "end_lineno", None), getattr(st, "end_col_offset", None)
+                self.stmt(r_, dict(env))
+            return None
         if isinstance(st, ast.Return):
             if st.value is not None:
                 rv = self.ev(st.value, env)
@@ -883,6 +1064,33 @@ class Interp:
                     sv_ = self.sv(st.value, env)
                     if sv_ is not None and rv.sym is None:
                         rv = rv.copy(sym=sv_)
+                zero_names = [n_ for ns_ in self.__dict__.get("zero_counts", []) for n_ in ns_]
+                if zero_names:
+                    # a path taken only for a count of zero: a result whose number of rows vanishes with that count carries nothing
+                    def vanishes(x_):
+                        t_ = x_.verts if x_.verts is not None else x_
+                        if t_.empty:
+                            return True
+                        d_ = t_.shape[0] if t_.shape else None
+                        if not isinstance(d_, Poly):
+                            return False
+                        for n_ in zero_names:
+                            d_ = d_.without(n_)
+                        return d_.is_zero()
+                    if vanishes(rv):
+                        rv = rv.copy()
+                        rv._empty = True
+                        if rv.verts is not None:
+                            rv.verts = rv.verts.copy()
+                            rv.verts._empty = True
+                    if rv.items:
+                        its_ = []
+                        for i_ in rv.items:
+                            if vanishes(i_):
+                                i_ = i_.copy()
+                                i_._empty = True
+                            its_.append(i_)
+                        rv.items = its_
                 self.returns.append((st, rv))
             return None
         if isinstance(st, ast.Raise):
@@ -941,6 +1149,12 @@ class Interp:
             v.sym = aug_sym
             self.assign(st.target, v, None, env, st)
             return env
+        if isinstance(st, ast.Expr) and isinstance(st.value, (ast.Yield, ast.YieldFrom)) and st.value.value is not None:
+            yv = self.ev(st.value.value, env)
+            if isinstance(st.value, ast.YieldFrom):
+                yv = yv.copy(shape=tuple(yv.shape[1:]) if yv.shape else None, items=None)
+            self.yields.append((st, yv))
+            return env
         if isinstance(st, ast.Expr):
             if isinstance(st.value, ast.Call):
                 self.call_effect(st.value, env, st)
@@ -956,12 +1170,23 @@ class Interp:
             is_none_side = nn is not None and nn[0] in env
             if is_none_side and nn[1]:
                 stack.append(env[nn[0]].deps)
+            zero_side = self._zero_branch(st.test) if self._count_test(st.test) else None
+            zc_ = self.__dict__.setdefault("zero_counts", [])
+            znames_ = sorted(au.names(st.test) - {"len", "int", "bool"})
+            if zero_side is True:
+                zc_.append(znames_)
             e1 = self.block(st.body, dict(env))
+            if zero_side is True:
+                zc_.pop()
             if is_none_side and nn[1]:
                 stack.pop()
             if is_none_side and not nn[1]:
                 stack.append(env[nn[0]].deps)
+            if zero_side is False:
+                zc_.append(znames_)
             e2 = self.block(st.orelse, dict(env))
+            if zero_side is False:
+                zc_.pop()
             if is_none_side and not nn[1]:
                 stack.pop()
             if nn is not None and nn[0] in env:
@@ -1022,6 +1247,8 @@ class Interp:
                     j = join_av(pre[k], e[k])
                     j.deps = e[k].deps          # the loop body is assumed to run (n >= 1)
                     j.missing = e[k].missing
+                    if e[k].sym is not None and e[k].sym.arr and e[k].sym.isvec and pre[k].deg == ANY:
+                        j.sym = e[k].sym        # a freshly allocated array whose every row the loop has filled
                     if j.verts is not None and e[k].verts is not None:
                         j.verts.deps = e[k].verts.deps
                     out[k] = j
@@ -1049,7 +1276,20 @@ class Interp:
                 e = self.block(st.body, dict(e if e is not None else pre))
                 if e is None:
                     break
-            return self.join_env(pre, e, "", "", pre=pre) if e is not None else pre
+            if e is None:
+                return pre
+            out = self.join_env(pre, e, "", "", pre=pre)
+            if out is not None:
+                # like a counted loop: the body is what produces the result (it is assumed to run at least once)
+                for k_ in list(out):
+                    if k_ in e and k_ in pre and out[k_] is not e[k_]:
+                        j_ = out[k_].copy(deps=e[k_].deps)
+                        j_.missing = dict(e[k_].missing)
+                        if j_.verts is not None and e[k_].verts is not None:
+                            j_.verts = j_.verts.copy(deps=e[k_].verts.deps)
+                            j_.verts.missing = dict(e[k_].verts.missing)
+                        out[k_] = j_
+            return out
         if isinstance(st, (ast.FunctionDef, ast.AsyncFunctionDef)):
             self.local_funcs[st.name] = st
             env[st.name] = unk(ALL)
@@ -1083,6 +1323,44 @@ class Interp:
                 continue
             return False
         return True
+
+    def _zero_branch(self, test):
+        """for a test on counts only: True when it holds exactly for a count of zero (or less), False when it fails exactly there, else None"""
+        def val(e, k):
+            if isinstance(e, ast.Constant) and isinstance(e.value, (int, bool)):
+                return int(e.value)
+            if isinstance(e, ast.Name):
+                return k
+            if isinstance(e, ast.Call) and au.call_tail(e) in ("len", "int", "bool") and len(e.args) == 1:
+                return val(e.args[0], k)
+            raise ValueError
+
+        def tv(e, k):
+            if isinstance(e, ast.UnaryOp) and isinstance(e.op, ast.Not):
+                return not tv(e.operand, k)
+            if isinstance(e, ast.BoolOp):
+                vs = [tv(x, k) for x in e.values]
+                return all(vs) if isinstance(e.op, ast.And) else any(vs)
+            if isinstance(e, ast.Compare):
+                left, ok = val(e.left, k), True
+                for op, r in zip(e.ops, e.comparators):
+                    right = val(r, k)
+                    f = {ast.Eq: lambda a, b: a == b, ast.NotEq: lambda a, b: a != b, ast.Lt: lambda a, b: a < b, ast.LtE: lambda a, b: a <= b,
+                         ast.Gt: lambda a, b: a > b, ast.GtE: lambda a, b: a >= b}.get(type(op))
+                    if f is None:
+                        raise ValueError
+                    ok, left = ok and f(left, right), right
+                return ok
+            return bool(val(e, k))
+        try:
+            at = [tv(test, k) for k in (0, 1, 2, 7)]
+        except ValueError:
+            return None
+        if at == [True, False, False, False]:
+            return True
+        if at == [False, True, True, True]:
+            return False
+        return None
 
     def _default_of(self, p):
         a = self.fn.args
@@ -1146,6 +1424,8 @@ class Interp:
         it = self.ev(it_expr, env)
         n = it.shape[0] if it.shape else None
         elem = AV(it.deg, it.aff, it.deps, it.shape[1:] if it.shape else None, None, None, it.missing, it.unit)
+        if it.rec is not None and it.rec[0] == "elements":
+            elem.rec = it.rec[1].rec        # a sequence of records (values yielded by a generator helper)
         if self.cfg.unit:
             s_it = self.sv(it_expr, env)
             if s_it is not None and s_it.arr:
@@ -1223,13 +1503,85 @@ class Interp:
                     nv.deg = v.deg
                 nv.deps = dunion(cur.deps, v.deps)
                 nv.shape = cur.shape
+                nv.seq = cur.seq
+                cov = self._row_coverage(t, st)
+                known_ = lambda x: x is not None and x != ANY and not isinstance(x, AffMix)
+                if cov == "full":
+                    nv.deg, nv.aff = v.deg, v.aff           # every row is replaced
+                elif cov == "partial" and known_(cur.aff) and known_(v.aff) and cur.aff != v.aff and cur.deg == v.deg and known_(cur.deg):
+                    nv.aff = AffMix([cur.aff, v.aff])        # the rows outside the slice keep their weight
+                    self.partial_stores[t.value.id] = st
+                if v.verts is not None:       # a preallocated list of meshes filled entry by entry
+                    nv.verts = v.verts if cur.verts is None else elem_join(cur.verts, v.verts)[0]
+                elif cur.verts is not None:
+                    nv.verts = cur.verts
                 env[t.value.id] = nv
                 # row fill:  X[i, :] = ... / X[i] = ...   with i the index of an enclosing loop
                 idx = t.slice.elts[0] if isinstance(t.slice, ast.Tuple) and t.slice.elts else t.slice
+                unit_rows_ = cur.sym is not None and cur.sym.arr and cur.sym.isvec and cur.sym.unorm
+                if self.cfg.unit and isinstance(idx, ast.Name) and idx.id in self.loop_len and (cur.deg == ANY or unit_rows_) \
+                        and cur.shape and same_dim(cur.shape[0], self.loop_len[idx.id][1]) \
+                        and (not isinstance(t.slice, ast.Tuple) or all(isinstance(x_, ast.Slice) and x_.lower is None and x_.upper is None for x_ in t.slice.elts[1:])):
+                    sv_ = v.sym if v.sym is not None else (self.sv(value_node, env) if value_node is not None else None)
+                    if sv_ is not None and not sv_.isvec and sv_.comps is not None and len(sv_.comps) in (2, 3) and all(x_ is not None for x_ in sv_.comps) \
+                            and len(cur.shape) == 2:
+                        # a row given by its explicit coordinates
+                        sv_ = SV(comps=list(sv_.comps), isvec=True, unorm=self.is_unit(sv_.comps))
+                    if sv_ is not None and sv_.isvec and sv_.unorm:
+                        # every row of a freshly allocated array receives a unit vector: its rows are unit vectors
+                        rows_ = cur.sym if unit_rows_ else SV(isvec=True, unorm=True, vid=self.new_vid())
+                        rows_.arr = True
+                        nv.sym = rows_
                 if isinstance(idx, ast.Name) and idx.id in self.loop_len and not any(f[0] is st for f in self.fills):
                     self.fills.append((st, cur.shape[0] if cur.shape else None, self.loop_len[idx.id][1], t.value.id))
             return
-        # attribute stores are ignored (no geometric content tracked through them)
+        if isinstance(t, ast.Attribute) and isinstance(t.value, ast.Name) and t.value.id in env and env[t.value.id].rec is not None \
+                and env[t.value.id].rec[0] != "elements" and isinstance(env[t.value.id].rec[1], dict) and env[t.value.id].rec[0][0] == "object":
+            # state of a small object of the module (`self.tangent = ...` in its constructor / methods)
+            fields = env[t.value.id].rec[1]
+            if self.cfg.unit and v.sym is None and value_node is not None:
+                v = v.copy(sym=self.sv(value_node, env))
+            fields[t.attr] = v if t.attr not in fields or not self.__dict__.get("cond_depth", 0) else join_av(fields[t.attr], v)
+            return
+        # other attribute stores are ignored (no geometric content tracked through them)
+
+    def _row_coverage(self, t, st):
+        """rows written by the store `X[key] = ...`: 'full' (all of them), 'partial' (provably not all: constant non-trivial slice bounds or
+        one constant row), None (unknown)"""
+        keys = list(t.slice.elts) if isinstance(t.slice, ast.Tuple) else [t.slice]
+        full_slice = lambda k: (isinstance(k, ast.Slice) and k.lower is None and k.upper is None and k.step is None) or \
+            (isinstance(k, ast.Constant) and k.value is Ellipsis)
+        if not keys or not all(full_slice(k) for k in keys[1:]):
+            return None
+        k0 = keys[0]
+        if isinstance(k0, ast.Name):
+            if not hasattr(self, "_b"):
+                self._b = sym.Bindings(self.fn)
+            try:
+                d = self._b.resolve(k0, at=st) if getattr(st, "_parent", None) is not None else self._b.resolve(k0)
+            except Exception:
+                d = None
+            if isinstance(d, ast.Call) and au.call_tail(d) == "slice" and 1 <= len(d.args) <= 3 and not d.keywords:
+                a_ = [None if (isinstance(x, ast.Constant) and x.value is None) else x for x in d.args]
+                lo, hi, stp = (None, a_[0], None) if len(a_) == 1 else (a_[0], a_[1], a_[2] if len(a_) > 2 else None)
+                k0 = ast.Slice(lower=lo, upper=hi, step=stp)
+            else:
+                return None
+        if full_slice(k0):
+            return "full"
+        if isinstance(k0, ast.Slice) and k0.step is None:
+            lo = au.const(k0.lower) if k0.lower is not None else None
+            hi = au.const(k0.upper) if k0.upper is not None else None
+            if k0.lower is not None and not isinstance(lo, int) or k0.upper is not None and not isinstance(hi, int):
+                return None
+            if (lo in (None, 0)) and hi is None:
+                return "full"
+            if (isinstance(lo, int) and lo > 0) or (isinstance(hi, int) and hi < 0):
+                return "partial"        # X[1:], X[:-1], X[1:-1]: at least one row is left out
+            return None
+        if isinstance(au.const(k0), int) and not isinstance(au.const(k0), bool):
+            return None        # one constant row: poles written apart are the usual case, not tracked
+        return None
 
     def vertices_extend(self, mesh_expr, rhs, env, st):
         root = _root(mesh_expr)
@@ -1320,6 +1672,10 @@ class Interp:
         return out
 
     def call_effect(self, c, env, st):
+        if isinstance(c.func, ast.Name) and c.func.id in self.func_alias and c.func.id not in self.local_funcs:
+            c2 = ast.Call(func=self.func_alias[c.func.id], args=c.args, keywords=c.keywords)
+            ast.copy_location(c2, c)
+            return self.call_effect(c2, env, st)
         f = c.func
         if isinstance(f, ast.Attribute) and f.attr in ("append", "extend", "add") and c.args:
             v = self.ev(c.args[0], env)
@@ -1343,10 +1699,21 @@ class Interp:
                 if bad:
                     self.event(st, "mixed-degree", (cur.deg, v.deg))
                 nv.shape = (None,)
+                nv.seq = cur.seq
                 if v.verts is not None:       # a list of meshes: the coordinates of its elements
                     nv.verts = v.verts if cur.verts is None else elem_join(cur.verts, v.verts)[0]
                 if self.cfg.unit and f.attr == "append":
                     nv.sym = self._table_entry(c.args[0], env, st, cur)
+                    # a list whose every entry is a unit vector (whatever loop / statement appended it)
+                    s_new = v.sym if v.sym is not None else self.sv(c.args[0], env)
+                    unit_list = lambda x: x is not None and x.arr and x.isvec and x.unorm
+                    if s_new is not None and s_new.isvec and s_new.unorm and not s_new.arr and (unit_list(cur.sym) or cur.empty):
+                        if nv.sym is None or not (nv.sym.isvec and nv.sym.unorm):
+                            if unit_list(cur.sym):
+                                nv.sym = cur.sym        # the same fact: joins at loop heads keep it
+                            else:
+                                nv.sym = SV(isvec=True, unorm=True, vid=self.new_vid())
+                                nv.sym.arr = True
                 env[f.value.id] = nv
                 return
         self.ev(c, env)
@@ -1364,9 +1731,16 @@ class Interp:
             return lit()
         if isinstance(e.value, str):
             return AV(F0, F0, frozenset(), (Poly.const(len(e.value)),))      # iterating "xyz" runs 3 times
+        if e.value is None:
+            return lit()        # a placeholder (`[None] * n` filled later): no degree of its own
         return scalar0()
 
     def ev_Name(self, e, env):
+        if e.id in self.local_funcs and isinstance(self.local_funcs[e.id], (ast.FunctionDef, ast.Lambda)) \
+                and (e.id not in env or env[e.id].fn is None) and not (isinstance(au.parent(e), ast.Call) and au.parent(e).func is e):
+            out = unk(ALL)
+            out.fn = (self.local_funcs[e.id], dict(env), self)
+            return out
         if e.id in env:
             return env[e.id]
         if e.id == "pi":
@@ -1418,6 +1792,22 @@ class Interp:
             if c[-1] == "pi" and c[0] in ("np", "numpy", "math"):
                 return lit()
         base = self.ev(e.value, env)
+        if base.rec is not None and base.rec[0] != "elements" and e.attr in base.rec[1]:
+            return base.rec[1][e.attr]
+        if base.rec is not None and base.rec[0] != "elements" and base.rec[0][0] == "object" and e.attr in base.rec[0][4] and self.depth < 3:
+            # a property of a small object of the module
+            m_ = base.rec[0][4][e.attr]
+            ps_ = [p_.arg for p_ in m_.args.posonlyargs + m_.args.args]
+            sub = Interp(m_, Config(self.cfg.geo, self.cfg.repo, self.cfg.modname, unit=self.cfg.unit), args={ps_[0]: base} if ps_ else {}, depth=self.depth + 1).run()
+            self.events += [ev_ for ev_ in sub.events if ev_ not in self.events]
+            out_ = None
+            for _, v_ in sub.returns:
+                out_ = v_ if out_ is None else join_av(out_, v_)
+            if out_ is not None:
+                return out_
+        if base.ref is not None and (base.ref + "." + e.attr) in self.cfg.geo and (base.ref + "." + e.attr) not in self.attr_stores:
+            d, f = self.cfg.geo[base.ref + "." + e.attr]
+            return AV(d, f, frozenset([base.ref + "." + e.attr]), None)
         if e.attr == "vertices":
             if base.verts is not None:
                 return base.verts
@@ -1439,7 +1829,7 @@ class Interp:
         if c_ and c_[-1] in ("c_", "r_") and c_[0] in ("np", "numpy"):
             parts = [self.ev(x, env) for x in (e.slice.elts if isinstance(e.slice, ast.Tuple) else [e.slice])]
             out = self.collect(parts, e)
-            if c_[-1] == "c_" and parts and all(p_.shape and len(p_.shape) == 1 and isinstance(p_.shape[0], Poly) and p_.shape[0] == parts[0].shape[0] for p_ in parts):
+            if c_[-1] == "c_" and parts and all(p_.shape and len(p_.shape) == 1 and same_dim(p_.shape[0], parts[0].shape[0]) for p_ in parts):
                 out.shape = (parts[0].shape[0], Poly.const(len(parts)))
             return out
         base = self.ev(e.value, env)
@@ -1492,13 +1882,14 @@ class Interp:
                 return AV(v.deg, v.aff, v.deps, v.shape, None, v.verts, v.missing, v.unit)      # [*x] is list(x)
             return self.collect(items, e, shape=(None,), keep_items=False)
         shp = (Poly.const(len(items)),)
-        if items and all(it.shape is not None and it.shape == items[0].shape for it in items):
+        if items and all(same_shape(it.shape, items[0].shape) for it in items):
             shp = shp + tuple(items[0].shape)
-        elif items and any(it.shape is None or it.shape != () for it in items):
+        elif items and any(it.shape is None or len(it.shape) != 0 for it in items):
             shp = shp + (None,)        # rows of unknown / unequal length: only the number of items is known
         out = self.collect(items, e, shape=shp, keep_items=True)
         if not items:
             out.deps = TOP      # empty container: no element constrains the dependences yet
+        out.seq = "list"
         return out
 
     ev_List = ev_Tuple
@@ -1537,6 +1928,9 @@ class Interp:
         return scalar0(dunion(self.ev(e.left, env).deps, *[self.ev(v, env).deps for v in e.comparators]))
 
     def ev_IfExp(self, e, env):
+        dec = self.cfg.decide(e.test) if self.depth == 0 else None
+        if dec is not None:
+            return self.ev(e.body if dec else e.orelse, env)
         a, b = self.ev(e.body, env), self.ev(e.orelse, env)
         j = join_av(a, b, f"`{au.src(e.test)}` holds", f"`{au.src(e.test)}` fails")
         nn = _none_test(e.test)
@@ -1552,6 +1946,30 @@ class Interp:
         if isinstance(e.op, ast.Mult) and isinstance(e.left, ast.List):
             n = self.topoly(e.right)
             return a.copy(shape=(Poly.const(len(e.left.elts)) * n if n is not None else None,), items=None)
+        if isinstance(e.op, ast.Add) and a.seq == "list" and b.seq == "list":
+            # concatenation of two python lists / tuples
+            if a.empty:
+                out = b.copy(items=None)
+            elif b.empty:
+                out = a.copy(items=None)
+            else:
+                out, _ = elem_join(a.copy(items=None), b)
+                if a.verts is not None or b.verts is not None:
+                    out.verts = a.verts if b.verts is None else (b.verts if a.verts is None else elem_join(a.verts, b.verts)[0])
+            d0 = a.shape[0] if a.shape else None
+            d1 = b.shape[0] if b.shape else None
+            rest = tuple(a.shape[1:]) if a.shape and b.shape and len(a.shape) == len(b.shape) else ()
+            out.shape = ((d0 + d1) if isinstance(d0, Poly) and isinstance(d1, Poly) else None,) + rest
+            out.seq = "list"
+            return out
+        if isinstance(e.op, ast.Mult) and (a.seq == "list" or b.seq == "list") and not (a.seq == "list" and b.seq == "list"):
+            # repetition of a python list by a count held in a name
+            lst, cnt = (a, e.right) if a.seq == "list" else (b, e.left)
+            n = self.topoly(cnt)
+            d0 = lst.shape[0] if lst.shape else None
+            out = lst.copy(shape=((d0 * n) if isinstance(d0, Poly) and n is not None else None,) + tuple(lst.shape[1:] if lst.shape else ()), items=None)
+            out.seq = "list"
+            return out
         return self.binop(e.op, a, b, e)
 
     def binop(self, op, a, b, node):
@@ -1594,8 +2012,10 @@ class Interp:
         v = self.ev(e.elt, env2)
         if len(e.generators) > 1:
             n = None
-        return AV(v.deg, v.aff, v.deps, ((n,) + tuple(v.shape)) if (len(e.generators) == 1 and v.shape is not None) else (n,),
-                  None, v.verts, v.missing, v.unit)
+        out = AV(v.deg, v.aff, v.deps, ((n,) + tuple(v.shape)) if (len(e.generators) == 1 and v.shape is not None) else (n,),
+                 None, v.verts, v.missing, v.unit)
+        out.seq = "list"
+        return out
 
     ev_GeneratorExp = ev_ListComp
     ev_SetComp = ev_ListComp
@@ -1607,7 +2027,9 @@ class Interp:
         return scalar0()
 
     def ev_Lambda(self, e, env):
-        return unk(ALL)
+        out = unk(ALL)
+        out.fn = (e, dict(env), self)
+        return out
 
     # ------------------------------------------------------------------ calls
     def kw(self, c, name, pos=None):
@@ -1617,6 +2039,116 @@ class Interp:
         if pos is not None and pos < len(c.args):
             return c.args[pos]
         return None
+
+    def desugar_call(self, c):
+        """an equivalent expression for calls through aliases, partial applications, `__getitem__` and `map` (None: nothing to rewrite)"""
+        f = c.func
+        out = None
+        if isinstance(f, ast.Subscript) and not isinstance(f.slice, (ast.Slice, ast.Tuple)):
+            # TABLE[key](args) with the key a specialised parameter (dispatch on the mode)
+            tbl = self._table_node(f.value, {n_: 1 for n_ in self.assigned})
+            kv = self.cfg.consts.get(f.slice.id, KeyError) if isinstance(f.slice, ast.Name) else (f.slice.value if isinstance(f.slice, ast.Constant) else KeyError)
+            if isinstance(tbl, ast.Dict) and kv is not KeyError:
+                for k_, v_ in zip(tbl.keys, tbl.values):
+                    if isinstance(k_, ast.Constant) and k_.value == kv and isinstance(v_, (ast.Name, ast.Attribute, ast.Lambda)):
+                        out = ast.Call(func=v_, args=c.args, keywords=c.keywords)
+        elif isinstance(f, ast.IfExp):
+            # (f if c else g)(args)  ==  f(args) if c else g(args)
+            out = ast.IfExp(test=f.test, body=ast.Call(func=f.body, args=c.args, keywords=c.keywords),
+                            orelse=ast.Call(func=f.orelse, args=c.args, keywords=c.keywords))
+        elif isinstance(f, ast.Name) and f.id in self.func_alias and f.id not in self.local_funcs:
+            out = ast.Call(func=self.func_alias[f.id], args=c.args, keywords=c.keywords)
+        elif isinstance(f, ast.Call) and au.call_tail(f) == "partial" and f.args and not any(isinstance(a, ast.Starred) for a in f.args):
+            # partial(f, a, b)(x)  ==  f(a, b, x)
+            out = ast.Call(func=f.args[0], args=list(f.args[1:]) + list(c.args), keywords=list(f.keywords) + list(c.keywords))
+        elif isinstance(f, ast.Attribute) and f.attr == "__getitem__" and len(c.args) == 1 and not c.keywords:
+            out = ast.Subscript(value=f.value, slice=c.args[0], ctx=ast.Load())
+        elif isinstance(f, ast.Name) and f.id == "map" and len(c.args) >= 2 and not c.keywords and "map" not in self.assigned:
+            # map(f, a, b ...)  ==  (f(x, y ...) for x, y ... in zip(a, b ...))
+            names = [ast.Name(id=f"_m{k_}·", ctx=ast.Load()) for k_ in range(len(c.args) - 1)]
+            elt = ast.Call(func=c.args[0], args=names, keywords=[])
+            if len(names) == 1:
+                tgt, src_it = ast.Name(id=names[0].id, ctx=ast.Store()), c.args[1]
+            else:
+                tgt = ast.Tuple(elts=[ast.Name(id=n_.id, ctx=ast.Store()) for n_ in names], ctx=ast.Store())
+                src_it = ast.Call(func=ast.Name(id="zip", ctx=ast.Load()), args=list(c.args[1:]), keywords=[])
+            out = ast.GeneratorExp(elt=elt, generators=[ast.comprehension(target=tgt, iter=src_it, ifs=[], is_async=0)])
+        if out is None:
+            return None
+        cache = self.__dict__.setdefault("_desugared", {})
+        if id(c) in cache:
+            return cache[id(c)][1]
+        ast.copy_location(out, c)
+        ast.fix_missing_locations(out)
+        cache[id(c)] = (c, out)     # one rewritten node per call site (obligations are keyed by node)
+        return out
+
+    def _table_node(self, e, counts):
+        """a dict display, or the module-level dict a name that is not a local refers to"""
+        if isinstance(e, ast.Dict):
+            return e
+        if isinstance(e, ast.Name) and not counts.get(e.id) and self.cfg.repo is not None and self.cfg.modname:
+            try:
+                from . import hi_flow
+                return hi_flow.module_constants(self.cfg.repo.module(self.cfg.modname).tree).get(e.id)
+            except Exception:
+                return None
+        return None
+
+    def record_class(self, name):
+        """(ClassDef, fields, defaults, methods) when `name` is a NamedTuple / dataclass of the analysed module"""
+        if self.cfg.repo is None or name in self.assigned:
+            return None
+        try:
+            m = self.cfg.repo.module(self.cfg.modname)
+        except Exception:
+            return None
+        cls = m.classes.get(name)
+        if cls is None:
+            return None
+        from . import hi_flow
+        info = hi_flow.record_info(cls)
+        return (cls,) + tuple(info) if info is not None else None
+
+    def object_class(self, name):
+        """a plain class of the analysed module (own __init__, no base class): (ClassDef, __init__, methods)"""
+        if self.cfg.repo is None or name in self.assigned:
+            return None
+        try:
+            m = self.cfg.repo.module(self.cfg.modname)
+        except Exception:
+            return None
+        cls = m.classes.get(name)
+        if cls is None or cls.bases or cls.decorator_list:
+            return None
+        methods = {st.name: st for st in cls.body if isinstance(st, ast.FunctionDef)}
+        init = methods.get("__init__")
+        if init is None or "__new__" in methods or "__getattr__" in methods or "__setattr__" in methods or init.args.vararg or init.args.kwarg:
+            return None
+        return cls, init, methods
+
+    def positional(self, c, args, callee=None, method=False):
+        """the positional arguments of a call with `*sequence` arguments expanded (None when a starred sequence has an unknown length);
+        with the callee known, a trailing `*sequence` of unknown length holds one value per remaining parameter without default"""
+        out = []
+        if callee is not None and c.args and isinstance(c.args[-1], ast.Starred) and not any(isinstance(a, ast.Starred) for a in c.args[:-1]) \
+                and not callee.args.defaults and not callee.args.vararg:
+            v = args[len(c.args) - 1]
+            if v.items is None and not (v.shape and isinstance(v.shape[0], Poly) and v.shape[0].is_const()):
+                ps = [p.arg for p in callee.args.posonlyargs + callee.args.args][(1 if method else 0):]
+                free = [p for p in ps[len(c.args) - 1:] if p not in {k.arg for k in c.keywords}]
+                el = v.copy(shape=tuple(v.shape[1:]) if v.shape else None, items=None)
+                return list(args[:len(c.args) - 1]) + [el] * len(free)
+        for node, v in zip(c.args, args):
+            if not isinstance(node, ast.Starred):
+                out.append(v)
+            elif v.items is not None:
+                out += list(v.items)
+            elif v.shape and isinstance(v.shape[0], Poly) and v.shape[0].is_const() and 0 <= v.shape[0].const_value() <= 8:
+                out += [v.copy(shape=tuple(v.shape[1:]), items=None)] * int(v.shape[0].const_value())
+            else:
+                return None
+        return out
 
     def ev_Call(self, c, env):
         out = self._ev_Call(c, env)
@@ -1632,6 +2164,106 @@ class Interp:
         return out
 
     def _ev_Call(self, c, env):
+        d_ = self.desugar_call(c)
+        if d_ is not None:
+            return self.ev(d_, env)
+        if isinstance(c.func, ast.Name) and c.func.id not in env:
+            rc = self.record_class(c.func.id)
+            if rc is not None:
+                args_ = [self.ev(a.value if isinstance(a, ast.Starred) else a, env) for a in c.args]
+                if self.cfg.unit:      # the symbolic facts (which radius, which unit direction) go with the fields
+                    args_ = [a_ if (a_.sym is not None or isinstance(n_, ast.Starred)) else a_.copy(sym=self.sv(n_, env)) for a_, n_ in zip(args_, c.args)]
+                pos_ = self.positional(c, args_)
+                if pos_ is None and len(c.args) == 1 and isinstance(c.args[0], ast.Starred):
+                    el_ = args_[0]       # Rec(*seq): one element of the sequence per field
+                    pos_ = [el_.copy(shape=tuple(el_.shape[1:]) if el_.shape else None, items=None) for _ in rc[1]]
+                if pos_ is not None and len(pos_) <= len(rc[1]):
+                    vals_ = dict(zip(rc[1], pos_))
+                    for k_ in c.keywords:
+                        if k_.arg:
+                            vals_[k_.arg] = self.ev(k_.value, env)
+                            if self.cfg.unit and vals_[k_.arg].sym is None:
+                                vals_[k_.arg] = vals_[k_.arg].copy(sym=self.sv(k_.value, env))
+                    for f_ in rc[1]:
+                        if f_ not in vals_ and f_ in rc[2]:
+                            vals_[f_] = self.ev(rc[2][f_], {})
+                    if all(f_ in vals_ for f_ in rc[1]):
+                        out_ = self.collect([vals_[f_] for f_ in rc[1]], c, shape=(Poly.const(len(rc[1])),), keep_items=True)
+                        out_.rec = (rc, vals_)
+                        return out_
+        if isinstance(c.func, ast.Name) and c.func.id not in env and self.depth < 3 and self.object_class(c.func.id) is not None:
+            cls_, init_, methods_ = self.object_class(c.func.id)
+            args_ = [self.ev(a.value if isinstance(a, ast.Starred) else a, env) for a in c.args]
+            if self.cfg.unit:
+                args_ = [a_ if (a_.sym is not None or isinstance(n_, ast.Starred)) else a_.copy(sym=self.sv(n_, env)) for a_, n_ in zip(args_, c.args)]
+            pos_ = self.positional(c, args_, init_, method=True)
+            ps_ = [p_.arg for p_ in init_.args.posonlyargs + init_.args.args]
+            if pos_ is not None and ps_ and len(pos_) <= len(ps_) - 1 and not any(k_.arg is None for k_ in c.keywords):
+                props_ = {k_: v_ for k_, v_ in methods_.items() if any(isinstance(d_, ast.Name) and d_.id == "property" for d_ in v_.decorator_list)}
+                obj = unk(dunion(*[a_.deps for a_ in args_]) if args_ else frozenset())
+                obj.rec = (("object", [], {}, {k_: v_ for k_, v_ in methods_.items() if k_ not in props_ and not k_.startswith("__")}, props_), {})
+                bound_ = {ps_[0]: obj}
+                bound_.update(dict(zip(ps_[1:], pos_)))
+                for k_ in c.keywords:
+                    bound_[k_.arg] = self.ev(k_.value, env)
+                sub = Interp(init_, Config(self.cfg.geo, self.cfg.repo, self.cfg.modname, unit=self.cfg.unit), args=bound_, depth=self.depth + 1).run()
+                self.events += [ev_ for ev_ in sub.events if ev_ not in self.events]
+                self.trig.update(sub.trig)
+                self.sq.update(sub.sq)
+                self.triples.update(sub.triples)
+                for k2_, o2_ in sub.unit_obl.items():
+                    self.merge_obligation(k2_, o2_)
+                alld_ = dunion(obj.deps, *[v_.deps for v_ in obj.rec[1].values() if v_.deps is not None]) if obj.rec[1] else obj.deps
+                obj.deps = alld_
+                return obj
+        if isinstance(c.func, ast.Attribute) and self.depth < 3:
+            recv_ = self.ev(c.func.value, env) if not _is_module(c.func.value) else None
+            if recv_ is not None and recv_.rec is not None and recv_.rec[0] != "elements" and c.func.attr in recv_.rec[0][3]:
+                m_ = recv_.rec[0][3][c.func.attr]
+                decos_ = [d_.id if isinstance(d_, ast.Name) else getattr(d_, "attr", "") for d_ in m_.decorator_list]
+                if any(d_ in ("staticmethod", "classmethod") for d_ in decos_) or any(d_ not in ("staticmethod", "classmethod") for d_ in decos_):
+                    return unk(ALL)         # static / class / decorated methods are not followed
+                args_ = [self.ev(a.value if isinstance(a, ast.Starred) else a, env) for a in c.args]
+                pos_ = self.positional(c, args_)
+                ps_ = [p_.arg for p_ in m_.args.posonlyargs + m_.args.args]
+                if pos_ is None and len(c.args) == 1 and isinstance(c.args[0], ast.Starred) and not m_.args.defaults:
+                    el_ = args_[0]
+                    pos_ = [el_.copy(shape=tuple(el_.shape[1:]) if el_.shape else None, items=None) for _ in ps_[1:]]
+                if pos_ is not None and ps_:
+                    bound_ = {ps_[0]: recv_}
+                    bound_.update(dict(zip(ps_[1:], pos_)))
+                    for k_ in c.keywords:
+                        if k_.arg:
+                            bound_[k_.arg] = self.ev(k_.value, env)
+                    sub = Interp(m_, Config(self.cfg.geo, self.cfg.repo, self.cfg.modname, unit=self.cfg.unit), args=bound_, depth=self.depth + 1).run()
+                    self.events += [ev_ for ev_ in sub.events if ev_ not in self.events]
+                    self.trig.update(sub.trig)
+                    self.sq.update(sub.sq)
+                    self.triples.update(sub.triples)
+                    for k2_, o2_ in sub.unit_obl.items():
+                        self.merge_obligation(k2_, o2_)
+                    out_ = None
+                    for _, v_ in sub.returns:
+                        out_ = v_ if out_ is None else join_av(out_, v_)
+                    if out_ is not None:
+                        return out_
+        if isinstance(c.func, ast.Lambda) and not any(isinstance(a, ast.Starred) for a in c.args) and not c.func.args.vararg and not c.func.args.kwarg:
+            la = c.func.args
+            ps_ = [p_.arg for p_ in la.posonlyargs + la.args]
+            env2 = dict(env)
+            for p_, d_ in zip(ps_[len(ps_) - len(la.defaults):], la.defaults):
+                env2[p_] = self.ev(d_, env)
+            for p_, a_ in zip(ps_, c.args):
+                env2[p_] = self.ev(a_, env)
+            for k_ in c.keywords:
+                if k_.arg:
+                    env2[k_.arg] = self.ev(k_.value, env)
+            for p_ in ps_:
+                env2.setdefault(p_, unk(ALL))
+            out = self.ev(c.func.body, env2)
+            if self.cfg.unit:
+                out = out.copy(sym=self.sv(c.func.body, env2))
+            return out
         tail = au.call_tail(c)
         name = au.call_name(c) or ""
         args = [self.ev(a, env) for a in c.args]
@@ -1678,6 +2310,15 @@ class Interp:
             n = self.topoly(c.args[0]) if len(c.args) == 1 else (
                 (self.topoly(c.args[1]) - self.topoly(c.args[0])) if len(c.args) == 2 and self.topoly(c.args[0]) is not None
                 and self.topoly(c.args[1]) is not None else None)
+            if len(c.args) == 3 and isinstance(au.const(c.args[2]), int) and not isinstance(au.const(c.args[2]), bool) and au.const(c.args[2]) != 0:
+                # range(a, b, k): ceil((b - a) / k) entries, derivable when (b - a + k - 1) is a multiple of k as a polynomial
+                k_ = au.const(c.args[2])
+                a_, b_ = self.topoly(c.args[0]), self.topoly(c.args[1])
+                if a_ is not None and b_ is not None:
+                    span = (b_ - a_) if k_ > 0 else (a_ - b_)
+                    cand = (span + Poly.const(abs(k_) - 1)).scale(Fraction(1, abs(k_)))
+                    if all(v_.denominator == 1 for v_ in cand.t.values()):
+                        n = cand
             return AV(F0, F0, alldeps, (n,))
         if tail == "enumerate" and args:
             return args[0]
@@ -1697,7 +2338,7 @@ class Interp:
             rows_like = None            # (k, s0): k sequences of s0 entries each
             if v.items and all(i_.shape is not None and len(i_.shape) >= 1 for i_ in v.items):
                 s0 = v.items[0].shape[0]
-                if all(i_.shape[0] is not None and isinstance(s0, Poly) and i_.shape[0] == s0 for i_ in v.items) and all(len(i_.shape) == 1 for i_ in v.items):
+                if all(same_dim(i_.shape[0], s0) for i_ in v.items) and all(len(i_.shape) == 1 for i_ in v.items):
                     rows_like = (Poly.const(len(v.items)), s0)
             elif v.items is None and v.shape is not None and len(v.shape) == 2:
                 rows_like = tuple(v.shape)      # a comprehension of equally long sequences
@@ -1724,8 +2365,18 @@ class Interp:
             return AV(v.deg, v.aff, v.deps, shape, None, None, v.missing)
         if tail == "meshgrid":
             return self.collect(args, c)
-        if tail == "map" and len(args) == 2:
-            return args[1].copy(items=None)
+        if tail == "chain" and isinstance(c.func, ast.Name) and args:
+            out = None
+            for a_ in args:
+                if a_.empty:
+                    continue
+                out = a_.copy(items=None) if out is None else elem_join(out, a_)[0]
+            if out is None:
+                return args[0]
+            out.shape = (None,) + tuple(out.shape[1:]) if out.shape else None
+            return out
+        if tail == "from_iterable" and first is not None:
+            return first.copy(items=None, shape=((None,) + tuple(first.shape[2:])) if first.shape and len(first.shape) >= 2 else None)
         if tail == "reshape":
             src_av = recv if recv is not None else first
             shp = c.args[0] if recv is not None and c.args else (c.args[1] if len(c.args) > 1 else None)
@@ -1777,6 +2428,9 @@ class Interp:
             return args[0].copy(deps=alldeps, items=None, verts=None)
         if tail in PROD and len(args) == 2:
             return AV(mul_deg(args[0].deg, args[1].deg), mul_aff(args[0].aff, args[1].aff), alldeps, None)
+        if tail in ("repeat", "tile", "roll", "flip", "fliplr", "flipud", "broadcast_to", "resize") and first is not None:
+            # the entries of the result are entries of the first argument
+            return AV(first.deg, first.aff, alldeps, None, None, None, first.missing, first.unit)
         if tail == "take" and len(args) >= 2:
             # np.take(a, idx, axis=0) is a[idx]
             a_, i_ = args[0], args[1]
@@ -1800,6 +2454,8 @@ class Interp:
             return AV(None, None, alldeps, None, None, None)
         if tail in SAME:
             vals = ([recv] if recv is not None and not args else []) + args
+            if recv is not None and tail in ("view", "astype", "clip", "round"):
+                vals = [recv]        # x.view(Vec), x.astype(float), x.clip(lo, hi): the values are those of x
             if len(vals) == 1:
                 v = vals[0]
                 shape = v.shape
@@ -1808,18 +2464,24 @@ class Interp:
                 out = AV(v.deg, v.aff, alldeps, shape, None, None, v.missing, v.unit)
                 if tail in ("int", "float", "round") and len(c.args) == 1 and not c.keywords:
                     out.val = v.val
-                if tail in ("copy", "deepcopy") and v.verts is not None:
-                    out.verts = v.verts.copy()       # a copy of a mesh carries (a copy of) its coordinates
+                if tail in ("list", "tuple", "sorted", "reversed", "tolist") and isinstance(c.func, (ast.Name, ast.Attribute)) and not _is_np_call(c):
+                    out.seq = "list"
+                if tail in ("copy", "deepcopy", "list", "tuple", "sorted", "reversed") and v.verts is not None:
+                    out.verts = v.verts.copy()       # a copy of a mesh / a list of meshes carries (a copy of) its coordinates
                 return out
             if vals:
                 return self.collect(vals, c, strict=(tail == "Vec")).copy(deps=alldeps)
             return lit()
         # ---- a nested function / lambda of this function: interpreted with the current environment as its closure
         if isinstance(c.func, ast.Name) and c.func.id in self.local_funcs and self.depth < 3 \
-                and not any(isinstance(a, ast.Starred) for a in c.args):
+                and self.positional(c, args) is not None and not any(k.arg is None for k in c.keywords):
             callee = self.local_funcs[c.func.id]
             ps = [p.arg for p in callee.args.posonlyargs + callee.args.args]
-            bound = dict(zip(ps, args))
+            pos_args = self.positional(c, args)
+            if self.cfg.unit and not any(isinstance(a, ast.Starred) for a in c.args):
+                # the symbolic facts of the arguments (unit directions ...) go with them
+                pos_args = [a if a.sym is not None else a.copy(sym=self.sv(n_, env)) for a, n_ in zip(pos_args, c.args)]
+            bound = dict(zip(ps, pos_args))
             bound.update(kws)
             if isinstance(callee, ast.Lambda):
                 env2 = dict(env)
@@ -1830,12 +2492,39 @@ class Interp:
                     out = out.copy(sym=self.sv(callee.body, env2))
                 return out
             sub = Interp(callee, Config(self.cfg.geo, self.cfg.repo, self.cfg.modname, unit=self.cfg.unit), args=bound, depth=self.depth + 1,
-                         closure=env, local_funcs=self.local_funcs).run()
+                         closure=env, local_funcs=self.local_funcs)
+            sub.fn_imports = dict(self.fn_imports, **sub.fn_imports)
+            sub.run()
             self.trig.update(sub.trig)
             self.sq.update(sub.sq)
             self.triples.update(sub.triples)
             for k_, o_ in sub.unit_obl.items():
-                self.unit_obl.setdefault(k_, o_)
+                self.merge_obligation(k_, o_)
+            self.events += [ev_ for ev_ in sub.events if ev_ not in self.events]
+            out = None
+            for _, v in sub.returns:
+                out = v if out is None else join_av(out, v)
+            return out if out is not None else unk(alldeps)
+        if isinstance(c.func, ast.Name) and c.func.id in env and env[c.func.id].fn is not None and self.depth < 3 \
+                and self.positional(c, args) is not None and not any(k.arg is None for k in c.keywords):
+            node_, cenv_, owner_ = env[c.func.id].fn
+            ps_ = [p.arg for p in node_.args.posonlyargs + node_.args.args]
+            bound = dict(zip(ps_, self.positional(c, args)))
+            bound.update(kws)
+            if isinstance(node_, ast.Lambda):
+                env2 = dict(cenv_)
+                for p_ in au.params(node_):
+                    env2[p_] = bound.get(p_, unk(ALL))
+                saved_ = owner_.cur_env
+                out = owner_.ev(node_.body, env2)
+                owner_.cur_env = saved_
+                if owner_ is not self:
+                    self.events += [ev_ for ev_ in owner_.events if ev_ not in self.events]
+                return out
+            sub = Interp(node_, Config(owner_.cfg.geo, owner_.cfg.repo, owner_.cfg.modname, unit=False), args=bound, depth=self.depth + 1,
+                         closure=cenv_, local_funcs=owner_.local_funcs)
+            sub.fn_imports = dict(owner_.fn_imports, **sub.fn_imports)
+            sub.run()
             self.events += [ev_ for ev_ in sub.events if ev_ not in self.events]
             out = None
             for _, v in sub.returns:
@@ -1846,12 +2535,14 @@ class Interp:
         # ---- a function of the package: interpret its body with the actual arguments
         if self.cfg.repo is not None and self.depth < 3 and isinstance(c.func, ast.Name):
             r = self.cfg.repo.resolve_func(self.cfg.modname, c.func.id)
-            if r and r[1] is not None and not any(isinstance(a, ast.Starred) for a in c.args) and r[1] is not self.fn \
+            if r is None and c.func.id in self.fn_imports and self.fn_imports[c.func.id][0] in self.cfg.repo.modules:
+                r = self.cfg.repo.resolve_func(*self.fn_imports[c.func.id])
+            if r and r[1] is not None and self.positional(c, args, r[1]) is not None and not any(k.arg is None for k in c.keywords) and r[1] is not self.fn \
                     and (r[0].name == "mouette." + self.cfg.modname.replace("mouette.", "") or r[0].name.startswith("mouette.procedural")):
                 callee = r[1]
                 ps = [p.arg for p in callee.args.posonlyargs + callee.args.args]
                 bound = {}
-                for p, a in zip(ps, args):
+                for p, a in zip(ps, self.positional(c, args, callee)):
                     bound[p] = a
                 for k, v in kws.items():
                     bound[k] = v
@@ -1861,7 +2552,7 @@ class Interp:
                 self.triples.update(sub.triples)
                 if callee.name.startswith("_"):     # a private helper works for its caller; another public generator answers for itself
                     for k_, o_ in sub.unit_obl.items():
-                        self.unit_obl.setdefault(k_, o_)
+                        self.merge_obligation(k_, o_)
                 self.events += [ev_ for ev_ in sub.events if ev_ not in self.events]
                 out = None
                 for _, v in sub.returns:
@@ -1869,6 +2560,11 @@ class Interp:
                 if out is not None:
                     return out
         return unk(alldeps)
+
+
+def _is_np_call(c):
+    ch = au.chain(c.func) if isinstance(c.func, ast.Attribute) else None
+    return bool(ch) and ch[0] in ("np", "numpy")
 
 
 def _countlike(fn, p, default):
